@@ -374,6 +374,19 @@ def http_part(R, quick):
                 if o2 != h14.run_impl(lambda: local.fetch_file(nm)):
                     R.violation("after a failed fetch the same accessor keeps returning something else than the file "
                                 "(state of the failed reply survives)", cf, {"second_fetch": h12._short(o2)})
+            # file_exists under the same failure: False only for "404 not found", else a data-access error
+            site.reset([beh])
+            ex = h14.run_impl(lambda: acc.file_exists("info"))
+            ce = {"accessor": "http", "file_exists": "info", "behaviour": str(beh)}
+            R.case(ce, nontrivial=True)
+            reqs.append(("http_exists", [sc, h14.wire_script([beh]), tree, b(acc.base_url), b"info"]))
+            pend.append((ce, ex))
+            body_beh = beh in ("cut-body", "cut-chunked", "bad-gzip")            # HEAD replies have no body
+            want_ex = (["ok", False] if beh in (("status", 404), ("status-json", 404))
+                       else ["ok", True] if body_beh else ["AccessErr"])
+            if ex != want_ex:
+                R.violation("file_exists under an HTTP failure: neither False (404) nor a data-access error", ce,
+                            {"impl": ex})
             site.reset([beh])
             out = h14.run_impl(lambda: acc.fetch_chunk(k, tuple(co)))
             case = {"accessor": "http", "fetch": [k, co], "behaviour": str(beh)}
@@ -383,6 +396,24 @@ def http_part(R, quick):
             pend.append((case, out))
             if out != ["AccessErr"]:
                 R.violation("HTTP failure on a plain dataset not reported as a data-access error", case, {"impl": out})
+        # servers without HEAD (405 / 501 on the probe): whatever the client then tries, a failing reply is a
+        # data-access error - never "the file does not exist" (False), never True
+        for hd in (501, 405):
+            for nxt in (("status", 503), ("status", 403), ("status", 500), "drop", ("status", 404), "normal"):
+                script = [("status", hd), nxt, nxt]
+                for nm in ("info", "not-there.json"):
+                    site.reset(script)
+                    ex = h14.run_impl(lambda: acc.file_exists(nm))
+                    ce = {"accessor": "http", "file_exists": nm, "server": f"HEAD answers {hd}",
+                          "next_replies": str(nxt)}
+                    R.case(ce, nontrivial=True)
+                    R.count(f"http:no-head:{hd}:{nxt if isinstance(nxt, str) else nxt[1]}:"
+                            f"{ex[0] if ex[0] != 'ok' else ex[1]}")
+                    reqs.append(("http_exists", [sc, h14.wire_script(script), tree, b(acc.base_url), b(nm)]))
+                    pend.append((ce, ex))
+                    if ex != ["AccessErr"]:
+                        R.violation("file_exists on a server that refuses HEAD returned an answer instead of "
+                                    "raising a data-access error", ce, {"impl": ex})
     # sharded
     for i in range(3 if quick else 12):
         root = os.path.join(R.tmp, f"hs{i}")
@@ -475,6 +506,47 @@ def http_part(R, quick):
                         continue
                     R.violation("HTTP failure during a sharded fetch surfaced as something else than a data-access / "
                                 "I/O error", case, {"impl": h12._short(out)})
+            # the shard file (or a member of the legacy pair) shorter than its indices say - truncated before
+            # the reader opens it, or shrunk under a reader that has the indices already: ranges that start
+            # past the end are answered 416.  The chunk is read as stored or the fetch fails with an I/O error
+            members = [name + ".index", name + ".data"] if legacy else [name + ".shard"]
+            others = [c for c in coords if c != co]
+            for mem in members:
+                fpath = os.path.join(ds, "1mm", mem)
+                orig = open(fpath, "rb").read()
+                cuts = sorted({0, 1, hl // 2, hl - 1, hl, hl + 1, (hl + len(orig)) // 2, len(orig) - 9,
+                               len(orig) - 1} & set(range(len(orig))))
+                for cut in cuts:
+                    for mode in ("before-open", "under-open-reader"):
+                        acc4 = accessor.get_accessor_for_url(url)
+                        if mode == "under-open-reader":
+                            site.reset()
+                            h14.run_impl(lambda: acc4.fetch_chunk("1mm", tuple(co)))
+                        with open(fpath, "wb") as fh:
+                            fh.write(orig[:cut])
+                        try:
+                            site.reset()
+                            outs = [(c, h14.run_impl(lambda: acc4.fetch_chunk("1mm", tuple(c))))
+                                    for c in [co] + others[:1]]
+                            case = {"accessor": "sharded-http", "triple": list(triple), "legacy": legacy,
+                                    "truncated": [mem, cut, len(orig)], "when": mode,
+                                    "statuses": sorted({e[0] for e in site.log})}
+                            if mode == "before-open":
+                                reqs.append(("hs_fetch", [sc, [], h14.tagged_tree(root), b(s.url + "/ds/1mm/"),
+                                                          b(name), hl, cmc, wloc]))
+                                pend.append((case, outs[0][1]))
+                        finally:
+                            with open(fpath, "wb") as fh:
+                                fh.write(orig)
+                        R.case(case, nontrivial=True)
+                        for c, o in outs:
+                            R.count(f"http:sharded:truncated:{mode}:{o[0] if o[0] != 'Crash' else o[1]}")
+                            stored = ["ok", bytes([c[0] + c[2] + 1]) * 9]
+                            if o in (["IOErr"], ["AccessErr"]) or o == stored:
+                                continue
+                            R.violation("a shard file shorter than its indices say (ranges past the end: 416) is read "
+                                        "as something else than the stored chunk or an I/O error",
+                                        {**case, "chunk": c}, {"impl": h12._short(o), "stored": h12._short(stored)})
     rep = R.model.batch(reqs)
     for (case, out), m in zip(pend, rep):
         if not h14.bout_matches(m[0], out):
